@@ -71,6 +71,7 @@ type Program struct {
 	cg       *callgraph.Graph
 	astCalls map[*types.Func][]*types.Func // static+interface-expanded callees from AST
 	reach    map[*types.Func]map[*types.Func]bool
+	renames  []string
 }
 
 // skipPkg lists module packages that hold test support code only; they are
@@ -164,8 +165,10 @@ func Load(dir string, overlay map[string][]byte) (*Program, error) {
 			}
 		}
 	}
+	p.resolveRenames()
 	sort.Slice(p.Funcs, func(i, j int) bool { return p.Funcs[i].Key() < p.Funcs[j].Key() })
 	facts.InlineHook = p.InlineBool
+	facts.NameHook = RefName
 	return p, nil
 }
 
@@ -201,16 +204,16 @@ func FuncKey(fn *types.Func) string {
 		if nt, ok := t.(*types.Named); ok {
 			name = nt.Obj().Name()
 		}
-		return fmt.Sprintf("%s.(%s%s).%s", pkg, ptr, name, fn.Name())
+		return fmt.Sprintf("%s.(%s%s).%s", pkg, ptr, name, RefName(fn))
 	}
-	return pkg + "." + fn.Name()
+	return pkg + "." + RefName(fn)
 }
 
 // Func looks a function up by package path and (optional) receiver type name.
 // recv "" means a package-level function.
 func (p *Program) Func(pkgPath, recv, name string) *FuncDecl {
 	for _, f := range p.Funcs {
-		if f.Pkg.PkgPath != pkgPath || f.Obj.Name() != name {
+		if f.Pkg.PkgPath != pkgPath || RefName(f.Obj) != name {
 			continue
 		}
 		sig := f.Obj.Type().(*types.Signature)
@@ -292,7 +295,7 @@ func (p *Program) Field(pkgPath, typeName, field string) *types.Var {
 		return nil
 	}
 	for i := 0; i < st.NumFields(); i++ {
-		if st.Field(i).Name() == field {
+		if RefName(st.Field(i)) == field {
 			return st.Field(i)
 		}
 	}
